@@ -27,7 +27,9 @@ RULE = ("case = (literal text, position); expected = result for the marker liter
 ASSUMPTIONS = ["the marker literal 'lit' is parsed correctly in every position (checked: its result must contain the marker)"]
 
 ATOMS = ["a", "Z", "N", "E", "5", " ", ",", "(", ")", "=", ";", ":", ".", "-", "+", "*", "/", "%", "$", "!", "?", "&", "|", "^", "~", "@", "#", "<", ">",
-         "[", "]", "{", "}", "_", '"', "`", "\\", ", ", " ,", "( ", "--", "/*", "*/", "''", "SELECT", "NULL", "CREATE", "é", "Ж", "中"]
+         "[", "]", "{", "}", "_", '"', "`", "\\", ", ", " ,", "( ", "--", "/*", "*/", "''", "SELECT", "NULL", "CREATE", "é", "Ж", "中",
+         # a backslash followed by a letter that some pre-processing step reads as an escape (Windows paths, Hive delimiters)
+         "\\t", "\\x", "\\n"]
 SUB3 = ["a", " ", ",", "(", ")", "=", ";", "-", "/", "*", "#", "'' ", "\\", "é", "Z", ".", "_", ":", "<", "5"]
 MARK = "'lit'"
 POSITIONS = {
@@ -123,6 +125,8 @@ def feats(s):
         f.append("lit:comma-run")
     if "\\" in s:
         f.append("lit:backslash")
+    if re.search(r"\\[txn]", s):
+        f.append("lit:backslash-escape-letter")
     if "/*" in s:
         f.append("lit:comment-open")
     if "*/" in s:
